@@ -17,7 +17,7 @@ PROPERTY = "C03"
 LEVEL = "model_checking"
 CMPS = ["gt", "ge", "lt", "le", "ne", "eq"]
 LEAVES = [("var", f) for f in "bBhHiIqQ"] + [("local", "h"), ("local", "I")] + \
-         [("reg", k) for k in ("r", "sr", "w", "sw")] + [("field", 2, 3)]
+         [("reg", k) for k in ("r", "sr", "w", "sw")] + [("field", 2, 3)] + [("hash", "i"), ("hash", "Q")]
 CONSTS = [0, 1, -1, 5, -7, 100, 127, 128, 255, 256, -129, 32767, 65535, 2 ** 31 - 1, -2 ** 31, 2 ** 31,
           2 ** 32 - 1, 2 ** 40, -(2 ** 40)]
 
@@ -143,25 +143,34 @@ def run(ctx):
     nvec = 6 if ctx.quick else 9
     cases, meta, refused = [], [], []
     vrng = random.Random(78)
-    for stmts in progs_:
+    for pi, stmts in enumerate(progs_):
+        # every fourth program sits inside the block of a temporary (which then occupies a register, usually r0)
+        scope = (None, "stmp", None, None, None, "tmp", None, None)[pi % 8]
         try:
-            pg = C.program(stmts)
+            pg = C.program(stmts, scope=scope)
         except NotGenerated as e:
             refused.append((repr(stmts)[:160], str(e)[:120]))
             continue
         for vals in vectors(vrng, pg, stmts, nvec):
             cases.append(C.case(pg, vals))
-            meta.append(dict(stmts=stmts, values=vals))
+            meta.append(dict(stmts=stmts, values=vals, scope=scope))
     if not cases:
         raise T.MachineryError("no C03 case could be built")
     wd = ctx.workdir()
     verdict = {}
-    CH = 6000
-    for start in range(0, len(cases), CH):
+    PAR = 12                              # cases are independent: several single-worker TLC processes side by side
+    CH = max(1, -(-len(cases) // PAR))
+
+    def chunk(start):
         path = os.path.join(wd, f"cases{start}.json")
         json.dump(cases[start:start + CH], open(path, "w"))
-        res = T.run(wd, "Cond", "Cond.cfg", timeout=3000, deadlock=False, env={"TRACE_FILE": path})
+        res = T.run(wd, "Cond", "Cond.cfg", timeout=3000, deadlock=False, env={"TRACE_FILE": path}, workers=1)
         os.remove(path)
+        return start, res
+    from concurrent.futures import ThreadPoolExecutor
+    with ThreadPoolExecutor(PAR) as ex:
+        results = list(ex.map(chunk, range(0, len(cases), CH)))
+    for start, res in results:
         if res.error:
             raise T.MachineryError("Cond failed:\n" + res.error[:3000])
         ctx.tlc_stats(res)
